@@ -32,6 +32,7 @@ from . import gen
 from .lib import CoqFailure, coq_Z, coq_list, coq_nat
 
 RTOL = 1e-9
+FORCED = ["hcp-oct-tet", "pmm2-3w", "wurtzite-int", "polar2w", "sq2w", "fcc-oct-tet"]
 
 
 # ------------------------------------------------------------------------------------------
@@ -248,7 +249,14 @@ def run(ck):
     from onsager import OnsagerCalc
     multi = ["hcp", "diamond", "polar", "polar2w", "re3", "hcp-oct-tet", "fcc-oct-tet", "bcc-tet", "honeycomb", "sq2w",
              "rect-polar2d", "oblique2d", "hcp-nonideal", "b2", "tria"]
-    for label, crys, chem in gen.pool(rng, ncases, names=multi, random_frac=0.55, maxatoms=4):
+    def source():
+        # always present: several Wyckoff sets with different site data, atoms listed in a random (interleaving) order
+        fl = list(FORCED); rng.shuffle(fl)
+        for nm in fl[:ck.n(4, 6)]:
+            crys, chem = gen.named(nm)
+            yield nm + "~perm", gen.shuffled(crys, rng), chem
+        yield from gen.pool(rng, ncases, names=multi, random_frac=0.55, maxatoms=4)
+    for label, crys, chem in source():
         try:
             net = gen.percolating_network(crys, chem, rng)
         except Exception:
@@ -271,7 +279,8 @@ def run(ck):
                 ck.violation("Interstitial.losstensors raised %r" % (e,), {"crystal": repr(crys), "chem": chem, "cutoff": cut, **inp},
                              key="c12-exception")
                 continue
-            kind = "%s:%dD-N%d-W%d-%s%s" % (stream, dim, N, len(sl), "conn" if len(info["comps"]) == 1 else "disc", "")
+            interleaved = any(list(w) != list(range(min(w), min(w) + len(w))) for w in sl) or [w[0] for w in sl] != sorted(w[0] for w in sl)
+            kind = "%s:%dD-N%d-W%d-%s%s" % (stream, dim, N, len(sl), "conn" if len(info["comps"]) == 1 else "disc", "-interleaved" if interleaved else "")
             nsample += 1
             ck.case(key=(label, round(cut, 5), inp["pre"], inp["bE"], inp["bET"]), nontrivial=(info["nz"] > 0 or len(info["modes"]) > 0), kind=kind,
                     sample={"crystal": label, "cutoff": cut, "N": N, "stream": stream, "input": {k: inp[k] for k in ("pre", "bE", "preT", "bET")},
